@@ -201,6 +201,10 @@ ASPECTS = [f'name:{k}' for k in KINDS] + ['set-identifier', 'header-id', 'ident:
                                           'non-uniform-index+direction', 'non-uniform-index+index-min-max',
                                           'unit:channel', 'unit:attr',
                                           'index-type', 'eq-type', 'eq-location', 'none', 'none-no-fsn']
+# other shapes of a non-conforming identifier (one trailing line feed is what `$` in a regular expression lets through)
+SHAPES = ['RPM\n', '\nRPM', 'RPM ', ' RPM', 'R.PM', 'rpm', 'RPM\r', 'R\tPM', 'RPM\n\n', 'R/PM', 'RPM\x00']
+SHAPED = ['name:channel', 'name:zone', 'set-identifier', 'header-id', 'ident:axis_id', 'ident:label']
+ASPECTS += [f'{a}|{i}' for a in SHAPED for i in range(len(SHAPES))]
 WHERE = ['inside', 'nested', 'outside', 'after-exception']
 # the object is created in one mode and the breaching value is assigned (through the public setters) in the other
 CROSS = ['cross:out-in', 'cross:in-out']
@@ -253,6 +257,19 @@ def breach_spec(aspect):
     sp = conforming_spec(two_origins=(aspect == 'none-no-fsn'), fsn=(aspect != 'none-no-fsn'))
     ops = sp['ops']
     bad = 'Lower case'
+    if '|' in aspect:
+        aspect, i = aspect.split('|')
+        bad = SHAPES[int(i)]
+        if aspect == 'set-identifier':
+            sp['sul']['set_identifier'] = bad
+        elif aspect == 'header-id':
+            ops[0]['kw']['fh_id'] = bad
+        elif aspect == 'ident:axis_id':
+            ops.append(S.op_add('axis', 'X', 'AXIS', axis_id=bad))
+        elif aspect == 'ident:label':
+            ops.append(S.op_add('calibration_coefficient', 'X', 'COEF', label=bad))
+        if not aspect.startswith('name:'):
+            return sp
     if aspect.startswith('name:'):
         kind = aspect[5:]
         if kind == 'origin':
